@@ -565,9 +565,11 @@ def rule_transfer(ctx):
             tgt = x.targets[0].value
             binds = [a.value for a in walk_local(fi.node) if isinstance(a, ast.Assign) and isinstance(tgt, ast.Name)
                      and any(isinstance(t, ast.Name) and t.id == tgt.id for t in a.targets)]
-            fresh = isinstance(tgt, ast.Name) and tgt.id not in fi.params and bool(binds) and all(
-                isinstance(b, ast.Call) and isinstance(b.func, ast.Attribute) and b.func.attr in ('new', '_new1', '_multi_new', 'ar', 'kr', 'ir')
-                for b in binds)
+            def is_ctor(b):
+                if isinstance(b, ast.IfExp):
+                    return is_ctor(b.body) and is_ctor(b.orelse)
+                return isinstance(b, ast.Call) and isinstance(b.func, ast.Attribute) and b.func.attr in ('new', '_new1', '_multi_new', 'ar', 'kr', 'ir')
+            fresh = isinstance(tgt, ast.Name) and tgt.id not in fi.params and bool(binds) and all(is_ctor(b) for b in binds)
             ctx.ob('C01.opt', f'{fi.fq}:{norm(x)[:60]}:onto-a-new-unit', fresh,
                    f'`{norm(tgt)}` receives the whole reader set of another unit but is not (only) bound to a unit constructed in this function '
                    f'({[norm(b)[:40] for b in binds]}): the readers it already had are forgotten', x, fi.module)
